@@ -309,14 +309,15 @@ def build_val(sh, terms, islist=False):
 
 class Seq(Val):
     """list / 1-D array / n x k array: length n, offset off, one z3 array per leaf."""
-    __slots__ = ("n", "off", "arrs", "esh", "kind")
+    __slots__ = ("n", "off", "arrs", "esh", "kind", "root")
 
-    def __init__(self, n, off, arrs, esh, kind="array"):
+    def __init__(self, n, off, arrs, esh, kind="array", root=None):
         self.n = n
         self.off = off
         self.arrs = list(arrs)
         self.esh = esh
         self.kind = kind  # 'array' | 'list'
+        self.root = root  # name of the parameter whose memory this value (or view) aliases, else None
 
     def idx(self, i):
         return z3.simplify(self.off + i) if z3.is_int_value(self.off) and z3.is_int_value(i) else self.off + i
@@ -328,7 +329,7 @@ class Seq(Val):
     def store(self, i, v):
         j = self.idx(i)
         ts = flatten_val(self.esh, v)
-        return Seq(self.n, self.off, [z3.Store(a, j, t) for a, t in zip(self.arrs, ts)], self.esh, self.kind)
+        return Seq(self.n, self.off, [z3.Store(a, j, t) for a, t in zip(self.arrs, ts)], self.esh, self.kind, self.root)
 
     def append(self, v):
         s = self.store(self.n, v)
@@ -338,7 +339,9 @@ class Seq(Val):
     def slice(self, lo, hi):
         """lo, hi already clamped: 0 <= lo, hi <= n (terms)."""
         ln = z3.If(hi >= lo, hi - lo, z3.IntVal(0))
-        return Seq(z3.simplify(ln), z3.simplify(self.off + lo), self.arrs, self.esh, self.kind)
+        # NumPy basic slices are views (alias the base); Python list slices are copies
+        return Seq(z3.simplify(ln), z3.simplify(self.off + lo), self.arrs, self.esh, self.kind,
+                   self.root if self.kind == "array" else None)
 
     def column(self, k):
         if self.esh.kind != "tup":
@@ -348,7 +351,7 @@ class Seq(Val):
             start += len(flatten_shape(a))
         sub = self.esh.args[k]
         cnt = len(flatten_shape(sub))
-        return Seq(self.n, self.off, self.arrs[start:start + cnt], sub, "array")
+        return Seq(self.n, self.off, self.arrs[start:start + cnt], sub, "array", self.root)
 
     @staticmethod
     def from_fn(n, esh, fn, kind="array"):
